@@ -37,6 +37,8 @@ def compare(cmp, impl, model):
     return None
 
 CFG = dict(
+    src_tables=True,   # tools/gen_tables.py + Proofs/SrcTablesRoll.v: tables regenerated from the Rust source on every run
+    src_tables_proofs=["Proofs/SrcTablesRoll.vo"],   # the rolling-family part of the generated tables (min_periods shapes)
     bins=["c05"],
     imports=["Run.RunC01", "Run.RunC03", "Run.RunC04"],
     rule="40 (thorough 260) structured series (lengths 0, 1, 2, 3 always, then 1..20; dyadic values; 9 null patterns; uniform / "
@@ -69,7 +71,10 @@ CFG = dict(
                "C01/C03/C04 (Proofs/Mask.v, Mask2.v, Mask3.v, Mask4.v). Not covered by a theorem (correspondence only): float element "
                "carrier of the extrema/rank family, series of unequal length in the two-series functions, a null order d in "
                "fdiff, min-max norm without the sentinel bound. Tied to the code by a mask-only differential run of all 37 entry "
-               "points on every backend incl. empty and len < w input.",
+               "points on every backend incl. empty and len < w input, and statically (translator, Proofs/SrcTablesRoll.v, re-checked on "
+               "every run): the shape of the min_periods computation of all 38 `fn ts_*` (clamp-to-length first?, `.min(window)`?, "
+               "`.max(k)`) is re-extracted from the Rust source text and proved equal to what each model function does, for every window, "
+               "min_periods, series, carrier and null dictionary (src_min_periods_conform + one tie lemma per entry point).",
     level_note="Trusted: Coq kernel + Reals axioms for the mask theorems; models of features.rs / cmp.rs / norm.rs / binary.rs / "
                "reg.rs; omitted min_periods of the extrema/rank family follows DESIGN 5.3 (the model reproduces the clamp to the "
                "series length); integer outputs (NaN's integer cast) are not exercised here.",
